@@ -288,7 +288,7 @@ func c13RandText(r *rand.Rand, n int) []rune {
 func toks(src string) Req { return Req{Op: "tokens", Src: Runes(src)} }
 
 func checkC13(c *Ctx) {
-	c.rule = "forward: random texts (length <= 200, biased to the ten quote characters, backtick, CR, LF, TAB, letters of the escape names, +, hex digits, NUL, CJK, astral) written as literals of the five quote spellings by an encoder that picks, per character, any rule-conformant spelling (raw, `CR` `LF` `CRLF` `TAB` `SP` `BK`, `U+hex`, backtick-wrapped unpaired quote, raw balanced pairs); zh.NextToken must return one token of the right type whose literal is the text, then EOF; for “ ”, 「 」 and 《 》 (the three documented ways to write a text value) also 输出‹literal› end to end; programs that end inside an unclosed literal (five opening quotes x five bodies x eleven positions: after each kind of comment, after a statement, in a declaration, a block, an argument list) must be syntax errors. reverse: all strings up to length 3 (quick) / 4 (thorough) plus random longer ones over a 28-symbol critical alphabet placed between the outer quotes of three families, against a three-valued reference decoder (value / unterminated = syntax error / unspecified where four readings of 'other backtick text is kept literally' differ or a U+ escape is not a scalar value). distinct_nontrivial = distinct (direction, family, escape kinds used / reference outcome class + content)"
+	c.rule = "forward: random texts (length <= 200, biased to the ten quote characters, backtick, CR, LF, TAB, letters of the escape names, +, hex digits, NUL, CJK, astral) written as literals of the five quote spellings by an encoder that picks, per character, any rule-conformant spelling (raw, `CR` `LF` `CRLF` `TAB` `SP` `BK`, `U+hex`, backtick-wrapped unpaired quote, raw balanced pairs); zh.NextToken must return one token of the right type whose literal is the text, then EOF; for “ ”, 「 」 and 《 》 (the three documented ways to write a text value) also 输出‹literal› end to end; balanced pairs of the literal's own quotes nested 1 … 100000 deep (plain, flat, alternating with another family, followed by more text), as a token and through 输出; programs that end inside an unclosed literal (five opening quotes x five bodies x eleven positions: after each kind of comment, after a statement, in a declaration, a block, an argument list) must be syntax errors. reverse: all strings up to length 3 (quick) / 4 (thorough) plus random longer ones over a 28-symbol critical alphabet placed between the outer quotes of three families, against a three-valued reference decoder (value / unterminated = syntax error / unspecified where four readings of 'other backtick text is kept literally' differ or a U+ escape is not a scalar value). distinct_nontrivial = distinct (direction, family, escape kinds used / reference outcome class + content)"
 	c.assumptions = []string{"token type codes 2/6/7 for the three literal families and 0 for EOF", "cases where the documented rules admit more than one reading are skipped and counted"}
 	rng := c.Rand("c13")
 
@@ -363,6 +363,65 @@ func checkC13(c *Ctx) {
 			c.Violation("e2e:"+f.fam.name+":"+f.src, fmt.Sprintf("输出%s yields %s, expected text %q", clip(f.src, 200), clip(got, 200), clip(string(f.text), 200)), map[string]interface{}{"req": req})
 		}
 	})
+
+	// nested balanced pairs at any depth: the literal closes at its own closing quote only
+	{
+		type dn struct {
+			name string
+			fam  quoteFamily
+			text string
+		}
+		dns := []dn{}
+		depths := []int{1, 2, 3, 10, 100, 127, 128, 129, 254, 255, 256, 257, 300, 511, 512, 513, 1000, 32767, 32768, 32769, 65535, 65536, 65537, 100000}
+		for _, fam := range c13Families {
+			other := c13Families[0]
+			if fam.open == other.open {
+				other = c13Families[1]
+			}
+			for _, d := range depths {
+				o, cl := string(fam.open), string(fam.close)
+				dns = append(dns, dn{fmt.Sprintf("own/%d", d), fam, strings.Repeat(o, d) + "心" + strings.Repeat(cl, d)})
+				dns = append(dns, dn{fmt.Sprintf("own-flat/%d", d), fam, strings.Repeat(o+"甲"+cl, d)})
+				dns = append(dns, dn{fmt.Sprintf("mixed/%d", d), fam, strings.Repeat(o+string(other.open), d/2+1) + "心" + strings.Repeat(string(other.close)+cl, d/2+1)})
+				dns = append(dns, dn{fmt.Sprintf("own-then-tail/%d", d), fam, strings.Repeat(o, d) + strings.Repeat(cl, d) + "尾" + o + cl})
+			}
+		}
+		dreqs := []Req{}
+		for _, d := range dns {
+			lit := string(d.fam.open) + d.text + string(d.fam.close)
+			dreqs = append(dreqs, toks(lit))
+			if d.fam.tokType == 2 || d.fam.tokType == 7 {
+				dreqs = append(dreqs, execReq("令甲 = 1\n输出"+lit+"\n"))
+			} else {
+				dreqs = append(dreqs, toks(lit+" "+lit))
+			}
+		}
+		c.runBatches(dreqs, 20, func(i int, req *Req, resp *Resp) {
+			c.Eval()
+			d := dns[i/2]
+			c.Nontrivial(fmt.Sprintf("nest|%s|%s|%d|%s", d.fam.name, d.name, i%2, resp.Kind))
+			c.Count("nested_pair_literals", 1)
+			key := fmt.Sprintf("nested:%s:%s:%d", d.fam.name, d.name, i%2)
+			rp := map[string]interface{}{"req": req}
+			if req.Op == "exec" {
+				if resp.Kind != "value" || resp.Val == nil || resp.Val.T != "text" || resp.Val.S() != d.text {
+					c.Violation(key, fmt.Sprintf("输出 of a %s literal holding %s (%d characters): outcome %s, expected the text between the outer quotes verbatim", d.fam.name, d.name, len([]rune(d.text)), clip(resp.Outcome(), 160)), rp)
+				}
+				return
+			}
+			want := 2 + i%2
+			if resp.Kind != "ok" || len(resp.Toks) != want {
+				c.Violation(key, fmt.Sprintf("a %s literal holding %s (%d characters): %s, %d tokens instead of %d", d.fam.name, d.name, len([]rune(d.text)), resp.Kind, len(resp.Toks), want), rp)
+				return
+			}
+			for x := 0; x < want-1; x++ {
+				if tk := resp.Toks[x]; tk.Type != d.fam.tokType || RunesToString(tk.Lit) != d.text {
+					c.Violation(key, fmt.Sprintf("a %s literal holding %s reads back as type %d with %d characters (expected type %d, %d characters): %q…", d.fam.name, d.name, tk.Type, len(tk.Lit), d.fam.tokType, len([]rune(d.text)), clip(RunesToString(tk.Lit), 60)), rp)
+					return
+				}
+			}
+		})
+	}
 
 	// an unterminated literal is a syntax error wherever it stands in a program: as the first
 	// thing after each kind of comment, after a statement, inside a block, in an argument list
